@@ -50,6 +50,9 @@ typedef struct
 
 } Skinny128CTRVec128Ctx_t;
 
+static int skinny128_ctr_vec128_set_counter
+    (Skinny128CTR_t *ctr, const void *counter, unsigned size);
+
 static int skinny128_ctr_vec128_init(Skinny128CTR_t *ctr)
 {
     Skinny128CTRVec128Ctx_t *ctx;
@@ -59,7 +62,9 @@ static int skinny128_ctr_vec128_init(Skinny128CTR_t *ctr)
     ctx->base_ptr = base_ptr;
     ctx->offset = SKINNY128_CTR_BLOCK_SIZE;
     ctr->ctx = ctx;
-    return 1;
+
+    /* Start from the all-zero counter block, spread across the lanes */
+    return skinny128_ctr_vec128_set_counter(ctr, 0, 0);
 }
 
 static void skinny128_ctr_vec128_cleanup(Skinny128CTR_t *ctr)
